@@ -32,7 +32,7 @@ def SenderIdle (q : St) (i : Nat) : Prop := q.senders[i]? = some .idle
 
 /-- inside `messageq_claim`, before it has returned -/
 def InClaim : SPc → Prop
-  | .idle | .failed | .gotPerm | .loaded _ => True
+  | .idle | .loadedFree _ | .gotPerm | .loaded _ => True
   | _ => False
 
 /-- a sender's control location against its program counters in the event queue and in the atomic run queue -/
@@ -248,14 +248,18 @@ theorem upd_id {α : Type} (m : Nat → α) (i : Nat) : upd m i (m i) = m := by
 /-- where a sender that is inside `messageq_claim` finds itself after its next atomic operation -/
 theorem claim_step (q : St) (i : Nat) (v : Nat) (pc : SPc) (h : q.senders[i]? = some pc) (hc : InClaim pc) :
     (∃ sl k, (step q (.sender i false v)).senders[i]? = some (.hasSlot sl k)) ∨
-    (step q (.sender i false v)).senders[i]? = some .idle ∧ pc = .failed ∨
+    (step q (.sender i false v)).senders[i]? = some .idle ∨
     (∃ pc', (step q (.sender i false v)).senders[i]? = some pc' ∧ InClaim pc' ∧ pc' ≠ .idle) := by
   cases pc with
   | idle =>
-    rcases step_idle q i false v h with e | e
+    rcases step_idle q i false v h with ⟨w, e⟩ | e
     · exact Or.inr (Or.inr ⟨_, e, trivial, by simp⟩)
+    · exact Or.inr (Or.inl e)
+  | loadedFree w =>
+    rcases step_loadedFree q i false v w h with e | e | ⟨w', e⟩
     · exact Or.inr (Or.inr ⟨_, e, trivial, by simp⟩)
-  | failed => exact Or.inr (Or.inl ⟨step_failed q i false v h, rfl⟩)
+    · exact Or.inr (Or.inl e)
+    · exact Or.inr (Or.inr ⟨_, e, trivial, by simp⟩)
   | gotPerm => exact Or.inr (Or.inr ⟨_, step_gotPerm q i false v h, trivial, by simp⟩)
   | loaded w =>
     rcases step_loaded q i false v w h with e | e
@@ -273,7 +277,7 @@ theorem inv1_senderAtomic {s : S} (h : Inv1 s) (i : Nat) (hi : i < 3) : Inv1 (se
     rename_i st hpc
     rw [hpc] at hs
     obtain ⟨⟨pc, hq, hc⟩, ha⟩ := hs
-    rcases claim_step s.eq i st pc hq hc with ⟨sl, k, e⟩ | ⟨e, _⟩ | ⟨pc', e, hc', hne⟩
+    rcases claim_step s.eq i st pc hq hc with ⟨sl, k, e⟩ | e | ⟨pc', e, hc', hne⟩
     · simp only [mqStep, e]
       exact inv1_eqStep h i st (.evClaimed st) _ rfl rfl rfl rfl rfl (fun _ => ⟨⟨sl, k, e⟩, ha⟩) trivial
     · simp only [mqStep, e]
@@ -298,7 +302,7 @@ theorem inv1_senderAtomic {s : S} (h : Inv1 s) (i : Nat) (hi : i < 3) : Inv1 (se
     obtain ⟨he, pc, hq, hc⟩ := hs
     have ht1 : EvTargetOk (.raClaimed f ev) := by cases ev <;> exact ht
     have ht2 : EvTargetOk (.raNull f ev) := by cases ev <;> exact ht
-    rcases claim_step s.aq i f pc hq hc with ⟨sl, k, e⟩ | ⟨e, _⟩ | ⟨pc', e, hc', hne⟩
+    rcases claim_step s.aq i f pc hq hc with ⟨sl, k, e⟩ | e | ⟨pc', e, hc', hne⟩
     · simp only [mqStep, e]
       exact inv1_aqStep h i f (.raClaimed f ev) _ rfl rfl rfl rfl rfl (fun _ => ⟨he, ⟨sl, k, e⟩⟩) ht1
     · simp only [mqStep, e]
@@ -550,8 +554,8 @@ theorem inv1_enterSender {s : S} (h : Inv1 s) (i : Nat) (c : ICall) (hi : i < 3)
 
 theorem inv1_init (d : Nat) (kinds : List Kind) (budgets : List Nat) (h1 : 1 ≤ d) (h32 : d ≤ 32) :
     Inv1 (initWith d kinds budgets) := by
-  refine ⟨mq_inv_init 8 8 3 (by omega) (by omega) (by omega) (by omega) (by omega),
-          mq_inv_init d 4 3 h1 h32 (by omega) (by omega) (by omega), rfl, rfl, rfl, rfl, ?_, fun _ => trivial, rfl⟩
+  refine ⟨mq_inv_init 8 8 3 (by omega) (by omega) (by omega) (by omega),
+          mq_inv_init d 4 3 h1 h32 (by omega) (by omega), rfl, rfl, rfl, rfl, ?_, fun _ => trivial, rfl⟩
   intro i hi
   have : i = 0 ∨ i = 1 ∨ i = 2 := by omega
   rcases this with e | e | e <;> subst e <;> exact ⟨rfl, rfl⟩
